@@ -87,6 +87,9 @@ func genTopoSpec(t *rapid.T, minReps, maxReps int, gaps bool) topoSpec {
 			cutset[c+1] = true // a single-slot range
 		}
 	}
+	for k := 1; len(cutset) < m-1; k++ {
+		cutset[k*16384/(m+1)] = true // drawn cuts coincided: make sure there is a segment per master
+	}
 	var cuts []int
 	for c := range cutset {
 		cuts = append(cuts, c)
@@ -116,8 +119,8 @@ func genTopoSpec(t *rapid.T, minReps, maxReps int, gaps bool) topoSpec {
 	add(start, 16383)
 	for i, ok := range owned {
 		if !ok {
-			// give a master without slots the first range (so every master line carries slots)
-			ts.Ranges[i%len(ts.Ranges)][2] = i
+			// cannot happen: the first m segments go to the masters in turn
+			panic(fmt.Sprintf("master %d without slots", i))
 		}
 	}
 	ts.AddrForm = rapid.SampledFrom([]int{3, 4, 7}).Draw(t, "addrform")
